@@ -25,6 +25,23 @@ API:  translate(src, fn, roles, rettype, repo=...) -> str   (one `def`)
       roles: C parameter name -> 'in' | 'end' | 'inout' | 'outp' | 'outend' | 'val'
       rettype: bit width of the C return type, or 'bool'
       utf8_module(repo) -> str   (the whole lean/Usual/Gen/C11.lean)
+
+Second generation (class `Module`, used by the `<Cxx>T` modules; see DESIGN.md 10.22): the same
+expression core plus
+  * one struct parameter (`struct MBuf *buf`): integer / bool fields become fields of a generated
+    Lean `structure`; the struct's byte-pointer field is the constant base of one memory region
+    `mem`; loads / stores / memcpy / memset / memmove on it are returned as a list of `Ev` effects
+    in program order (loads after a store to the region are refused);
+  * scalar out-pointers (`uint8_t *dst_p`, `const uint8_t **dst_p`) -> `Option` results;
+  * pointer parameters as `Nat` offsets into named regions (`('ptr', 'ra')`);
+  * `while` / `for` loops -> one structurally recursive Lean `def` per loop (its `else` branch is
+    the rest of the function); the function takes `fuel : Nat` and returns `Option`, `none` only
+    when the fuel ran out;
+  * `sizeof(integer type)`, `__builtin_clz*` (argument proved non-zero), path-sensitive value
+    ranges (`if (!a) ...; max / a`), calls to already translated functions (emitted as calls),
+    calls to declared *extern* functions (a function parameter `ext_<name>`), and a cut point
+    (`stop_at`): the statement calling e.g. `realloc` and everything after it is not translated,
+    reaching it is the result `Sum.inr (live values)`.
 """
 import json
 import os
@@ -113,14 +130,56 @@ def fits(r, t):
 
 
 class V:
-    """translated expression: Lean text, C type, value interval (ints only)"""
-    __slots__ = ('e', 't', 'r')
+    """translated expression: Lean text, C type, value interval (ints only), known non-zero,
+    Lean Bool text when the value is a 0/1 conversion of a Boolean"""
+    __slots__ = ('e', 't', 'r', 'nz', 'b')
 
-    def __init__(self, e, t, r=None):
+    def __init__(self, e, t, r=None, nz=False, b=None):
         self.e, self.t = e, t
         if r is None and t[0] == 'int':
             r = full(t)
         self.r = r
+        self.nz = nz or (r is not None and (r[0] > 0 or r[1] < 0))
+        self.b = b
+
+
+LEAN_KEYWORDS = {'end', 'from', 'at', 'in', 'do', 'then', 'else', 'if', 'fun', 'let', 'have', 'show',
+                 'with', 'match', 'where', 'by', 'open', 'def', 'theorem', 'instance', 'structure',
+                 'class', 'namespace', 'section', 'import', 'export', 'private', 'protected', 'mutual',
+                 'variable', 'universe', 'local', 'prefix', 'infix', 'notation', 'macro', 'syntax',
+                 'deriving', 'extends', 'for', 'unless', 'return', 'try', 'catch', 'finally', 'mut',
+                 'nomatch', 'nofun', 'Type', 'Sort', 'Prop', 'using', 'calc', 'fuel', 'mem', 'rd', 'n', 'some', 'none'}
+
+
+def lean_id(name):
+    name = name.replace('->', '_').replace('*', 'out_').replace('$', 'x_')
+    return name + '_' if name in LEAN_KEYWORDS else name
+
+
+def strip_parens(n):
+    while n.get('kind') in ('ParenExpr', 'ConstantExpr'):
+        n = n['inner'][0]
+    return n
+
+
+def walk(n):
+    if isinstance(n, dict):
+        yield n
+        for c in n.get('inner', []):
+            yield from walk(c)
+
+
+def callee_name(n):
+    f = n['inner'][0]
+    while f.get('kind') in ('ImplicitCastExpr', 'ParenExpr'):
+        f = f['inner'][0]
+    if f.get('kind') != 'DeclRefExpr':
+        return None
+    return f['referencedDecl']['name']
+
+
+MEM_FUNCS = ('memcpy', 'memmove', 'memset')
+CLZ = {'__builtin_clz': 32, '__builtin_clzl': 64, '__builtin_clzll': 64}
 
 
 def indent(s):
@@ -128,13 +187,27 @@ def indent(s):
 
 
 class Tr:
-    def __init__(self, fn, roles):
+    def __init__(self, fn, roles, mod=None):
         self.fn = fn
         self.roles = roles
         self.labels = {}
         self.pending = []
         self.cnt = 0
         self.active_labels = []
+        # second generation (mod is a Module)
+        self.mod = mod
+        self.loads = []            # offsets (Lean text) of loads from `mem` not yet logged
+        self.loops = []            # contexts of the loops being translated, innermost last
+        self.loopdefs = []         # finished `def`s of loops, in dependency order
+        self.nloops = 0
+        self.struct = None         # (param name, StructDef, is_const)
+        self.stop_at = ()
+        self.keep = ()
+        self.sigargs = ''          # accessor / extern / fuel arguments passed on to loop defs
+        self.sigparams = ''
+        self.ret_type = None
+        self.ret_ranges = []
+        self.uses_ext = []
 
     def refuse(self, msg):
         raise Refused('%s: %s' % (self.fn, msg))
@@ -144,11 +217,11 @@ class Tr:
         (w1, s1), (w2, s2) = (v.t[1], v.t[2]), (to[1], to[2])
         r = v.r if fits(v.r, to) else full(to)
         if w1 == w2:
-            return V(v.e, to, r)
+            return V(v.e, to, r, nz=v.nz)
         if w2 < w1:
-            return V(f'(BitVec.truncate {w2} {v.e})', to, r)
+            return V(f'(BitVec.truncate {w2} {v.e})', to, r, nz=v.nz and fits(v.r, to))
         e = f'(BitVec.signExtend {w2} {v.e})' if s1 else f'(BitVec.zeroExtend {w2} {v.e})'
-        return V(e, to, r)
+        return V(e, to, r, nz=v.nz)
 
     def arith(self, op, a, b, t):
         """interval of a op b in type t; refuses signed overflow"""
@@ -178,11 +251,47 @@ class Tr:
             t = ctype(n)
             v = int(n['value'])
             return V(f'({v % (1 << t[1])}#{t[1]})', t, (v, v))
+        if k == '$V':
+            return n['v']
         if k == 'DeclRefExpr':
             name = n['referencedDecl']['name']
             if name not in env:
                 self.refuse('reference to ' + name + ' (not a parameter or local)')
             return env[name]
+        if k == 'MemberExpr':
+            key, fld = self.field_key(n)
+            if fld[0] == 'ptr':
+                return V('0', ('ptr', 'mem'))
+            return env[key]
+        if k == 'UnaryExprOrTypeTraitExpr':
+            if n.get('name') != 'sizeof':
+                self.refuse('type trait ' + str(n.get('name')))
+            if 'argType' in n:
+                at = ctype({'type': n['argType']})
+            else:
+                at = ctype(n['inner'][0])
+            if at[0] != 'int' or at[1] < 8:
+                self.refuse('sizeof of a non-integer type')
+            t = ctype(n)
+            v = at[1] // 8
+            return V(f'({v}#{t[1]})', t, (v, v))
+        if k == 'CallExpr':
+            name = callee_name(n)
+            if name in CLZ:
+                a = self.expr(n['inner'][1], env)
+                if a.t[0] != 'int' or a.t[1] != CLZ[name] or a.t[2]:
+                    self.refuse(name + ' on ' + str(a.t))
+                if not a.nz:
+                    self.refuse(name + ' of a possibly zero argument (undefined)')
+                w = a.t[1]
+                e = f'(BitVec.clz {a.e})'
+                if w != 32:
+                    e = f'(BitVec.truncate 32 {e})'
+                return V(e, ('int', 32, True), (0, w - 1))
+            sig = self.mod.sigs.get(name) if self.mod else None
+            if sig is None or not sig.pure:
+                self.refuse('call to ' + str(name) + ' inside an expression')
+            return self.call_text(n, sig, env)[1]
         if k in ('ImplicitCastExpr', 'CStyleCastExpr'):
             ck = n.get('castKind')
             sub = n['inner'][-1]
@@ -191,11 +300,20 @@ class Tr:
             v = self.expr(sub, env)
             if ck == 'IntegralCast':
                 if v.t[0] == 'bool':
-                    v = self.tobv(v)
+                    r = self.conv(self.tobv(v), ctype(n))
+                    if self.mod:
+                        r.b = v.e
+                    return r
                 return self.conv(v, ctype(n))
             if ck == 'IntegralToBoolean':
                 if v.t[0] == 'bool':
                     return v
+                if v.t[0] != 'int':
+                    self.refuse('conversion of ' + str(v.t) + ' to bool')
+                if v.b is not None:
+                    return V(v.b, ('bool',))
+                if self.mod and v.r[0] == v.r[1]:
+                    return V('true' if v.r[0] else 'false', ('bool',))
                 return V(f'({v.e} != 0#{v.t[1]})', ('bool',))
             self.refuse('cast kind ' + str(ck))
         if k == 'UnaryOperator':
@@ -203,9 +321,11 @@ class Tr:
             sub = n['inner'][0]
             if op == '*':
                 v = self.expr(sub, env)
-                if v.t == ('ptr', 'bytes'):
+                if v.t[0] == 'ptr' and len(v.t) == 2 and v.t[1] not in ('out', 'opaque'):
                     t = ctype(n)
-                    return V(f'(rd ({v.e}))', ('int', 8, t[2]))
+                    if t[0] != 'int' or t[1] != 8:
+                        self.refuse('dereference of a non-byte pointer')
+                    return V(self.load(v.t[1], v.e, env), ('int', 8, t[2]))
                 if v.t[0] == 'ptrptr':
                     return env['*' + v.t[1]]
                 self.refuse('dereference of ' + str(v.t))
@@ -213,9 +333,16 @@ class Tr:
                 tgt = sub
                 while tgt['kind'] == 'ParenExpr':
                     tgt = tgt['inner'][0]
-                if tgt['kind'] != 'DeclRefExpr':
+                if tgt['kind'] == 'MemberExpr' and self.mod:
+                    name, fld = self.field_key(tgt)
+                    if fld[0] != 'int':
+                        self.refuse('post-increment of a non-integer field')
+                elif tgt['kind'] != 'DeclRefExpr':
                     self.refuse('post-increment of a non-variable')
-                name = tgt['referencedDecl']['name']
+                else:
+                    name = tgt['referencedDecl']['name']
+                if any(p[0] == name for p in self.pending):
+                    self.refuse('two unsequenced side effects on ' + name)
                 self.pending.append((name, op))
                 return env[name]
             v = self.expr(sub, env)
@@ -224,6 +351,8 @@ class Tr:
                     return V(f'(!{v.e})', ('bool',))
                 if v.t[0] != 'int':
                     self.refuse('! on ' + str(v.t))
+                if v.b is not None:
+                    return V(f'(!{v.b})', ('bool',))
                 return V(f'({v.e} == 0#{v.t[1]})', ('bool',))
             if v.t[0] == 'bool':
                 v = self.tobv(v)
@@ -243,11 +372,14 @@ class Tr:
         if k == 'ArraySubscriptExpr':
             b = self.expr(n['inner'][0], env)
             i = self.expr(n['inner'][1], env)
-            if b.t != ('ptr', 'bytes') or i.t[0] != 'int':
+            if b.t[0] != 'ptr' or len(b.t) != 2 or b.t[1] in ('out', 'opaque') or i.t[0] != 'int':
                 self.refuse('subscript of ' + str(b.t))
             if i.r[0] < 0:
                 self.refuse('possibly negative index')
-            return V(f'(rd ({b.e} + ({i.e}).toNat))', ('int', 8, ctype(n)[2]))
+            t = ctype(n)
+            if t[0] != 'int' or t[1] != 8:
+                self.refuse('subscript of a non-byte pointer')
+            return V(self.load(b.t[1], f'{b.e} + ({i.e}).toNat', env), ('int', 8, t[2]))
         if k == 'BinaryOperator':
             op = n['opcode']
             if op == ',' or op.endswith('=') and op not in ('==', '!=', '<=', '>='):
@@ -264,8 +396,8 @@ class Tr:
                     return V(f'(decide ({a.e} {lop} {b.e}))', ('bool',))
                 self.refuse('pointer operation ' + op)
             if op in ('&&', '||'):
-                ba = a.e if a.t[0] == 'bool' else f'({a.e} != 0#{a.t[1]})'
-                bb = b.e if b.t[0] == 'bool' else f'({b.e} != 0#{b.t[1]})'
+                ba = a.e if a.t[0] == 'bool' else a.b if a.b is not None else f'({a.e} != 0#{a.t[1]})'
+                bb = b.e if b.t[0] == 'bool' else b.b if b.b is not None else f'({b.e} != 0#{b.t[1]})'
                 return V(f'({ba} {op} {bb})', ('bool',))
             a, b = self.tobv(a), self.tobv(b)
             if a.t[0] != 'int' or b.t[0] != 'int':
@@ -318,23 +450,50 @@ class Tr:
                     r = (0, a.r[1] if a.r[0] >= 0 else b.r[1])
                 return V(f'({a.e} {m} {b.e})', t, r)
             if op in ('/', '%'):
-                if b.r[0] <= 0 <= b.r[1]:
+                if b.r[0] <= 0 <= b.r[1] and not (b.nz and b.r[0] >= 0):
                     self.refuse('possible division by zero')
                 if s and (a.r[0] < 0 or b.r[0] < 0):
                     self.refuse('signed division of possibly negative operands')
-                r = (0, a.r[1]) if op == '/' else (0, min(a.r[1], b.r[1] - 1))
+                blo = max(b.r[0], 1)
+                r = (a.r[0] // b.r[1], a.r[1] // blo) if op == '/' else (0, min(a.r[1], b.r[1] - 1))
                 return V(f'({a.e} {op} {b.e})', t, r)
             self.refuse('binary operator ' + op)
         if k == 'ConditionalOperator':
             c = self.expr(n['inner'][0], env)
-            a = self.expr(n['inner'][1], env)
-            b = self.expr(n['inner'][2], env)
+            a = self.expr(n['inner'][1], self.refine(n['inner'][0], env, True))
+            b = self.expr(n['inner'][2], self.refine(n['inner'][0], env, False))
             ce = c.e if c.t[0] == 'bool' else f'({c.e} != 0#{c.t[1]})'
             if a.t != b.t:
                 self.refuse('?: arms of different type')
             r = (min(a.r[0], b.r[0]), max(a.r[1], b.r[1])) if a.t[0] == 'int' else None
             return V(f'(if {ce} then {a.e} else {b.e})', a.t, r)
         self.refuse('expression kind ' + k)
+
+    def load(self, region, off, env):
+        """Lean text of the byte at offset `off` of a region"""
+        if region == 'bytes':
+            return f'(rd ({off}))'
+        if region == 'mem':
+            if env.get('$dirty'):
+                self.refuse('load from the struct\'s memory after a store / extern call in the same function')
+            self.loads.append(off)
+        return f'({region} ({off}))'
+
+    def field_key(self, n):
+        """MemberExpr `buf->f` on the struct parameter -> (env key, field type)"""
+        if not self.struct or not n.get('isArrow'):
+            self.refuse('member access that is not param->field')
+        b = n['inner'][0]
+        while b.get('kind') in ('ImplicitCastExpr', 'ParenExpr'):
+            if b.get('kind') == 'ImplicitCastExpr' and b.get('castKind') not in ('LValueToRValue', 'NoOp'):
+                self.refuse('member access through a cast')
+            b = b['inner'][0]
+        if b.get('kind') != 'DeclRefExpr' or b['referencedDecl']['name'] != self.struct[0]:
+            self.refuse('member access on something else than the struct parameter')
+        fld = self.struct[1].fields.get(n['name'])
+        if fld is None:
+            self.refuse('unknown field ' + n['name'])
+        return self.struct[0] + '->' + n['name'], fld
 
     def tobv(self, v):
         if v.t[0] == 'bool':
@@ -352,12 +511,123 @@ class Tr:
             return v.e
         if v.t[0] != 'int':
             self.refuse('condition of type ' + str(v.t))
+        if v.b is not None:
+            return v.b
         return f'({v.e} != 0#{v.t[1]})'
+
+    # ------------------------------------------------- path-sensitive value ranges
+    def peek(self, n, env):
+        """value of a side-effect-free expression, without leaving traces; None when refused"""
+        saved = (list(self.pending), list(self.loads), self.cnt)
+        try:
+            v = self.expr(n, env)
+            if self.pending != saved[0] or self.loads != saved[1]:
+                return None
+            return v
+        except Refused:
+            return None
+        finally:
+            self.pending, self.loads, self.cnt = saved[0], saved[1], saved[2]
+
+    def as_var(self, n, allow_widen):
+        """env key when `n` is the value of a variable / struct field (through value-preserving
+        casts); else None"""
+        while True:
+            k = n.get('kind')
+            if k in ('ParenExpr', 'ConstantExpr'):
+                n = n['inner'][0]
+            elif k == 'ImplicitCastExpr' and n.get('castKind') in ('LValueToRValue', 'NoOp'):
+                n = n['inner'][-1]
+            elif k == 'ImplicitCastExpr' and n.get('castKind') == 'IntegralCast' and allow_widen:
+                try:
+                    to, frm = ctype(n), ctype(n['inner'][-1])
+                except Refused:
+                    return None
+                if to[0] != 'int' or frm[0] != 'int' or to[1] < frm[1]:
+                    return None
+                n = n['inner'][-1]
+            else:
+                break
+        if n.get('kind') == 'DeclRefExpr':
+            return n['referencedDecl']['name']
+        if n.get('kind') == 'MemberExpr' and self.struct:
+            try:
+                return self.field_key(n)[0]
+            except Refused:
+                return None
+        return None
+
+    def narrow(self, env, key, lo=None, hi=None, nz=False, zero=False):
+        v = env.get(key)
+        if not isinstance(v, V) or v.t[0] != 'int':
+            return env
+        l, h = v.r
+        if zero:
+            lo, hi = 0, 0
+        if lo is not None:
+            l = max(l, lo)
+        if hi is not None:
+            h = min(h, hi)
+        if nz and l == 0:
+            l = 1
+        if nz and h == 0:
+            h = -1
+        if l > h:
+            return env          # contradictory path: leave the ranges alone
+        env = dict(env)
+        env[key] = V(v.e, v.t, (l, h), nz=(v.nz or nz) and not zero, b=None)
+        return env
+
+    def refine(self, n, env, truth):
+        """env with the ranges that the condition `n` being `truth` implies (sound narrowing only)"""
+        n = strip_parens(n)
+        k = n.get('kind')
+        if k == 'ImplicitCastExpr' and n.get('castKind') in ('IntegralToBoolean',):
+            return self.refine(n['inner'][-1], env, truth)
+        if k == 'UnaryOperator' and n.get('opcode') == '!':
+            return self.refine(n['inner'][0], env, not truth)
+        if k == 'BinaryOperator' and n['opcode'] == '&&':
+            return self.refine(n['inner'][1], self.refine(n['inner'][0], env, True), True) if truth else env
+        if k == 'BinaryOperator' and n['opcode'] == '||':
+            return env if truth else self.refine(n['inner'][1], self.refine(n['inner'][0], env, False), False)
+        key = self.as_var(n, True)
+        if key is not None:
+            return self.narrow(env, key, nz=truth, zero=not truth)
+        if k == 'BinaryOperator' and n['opcode'] in ('==', '!=', '<', '>', '<=', '>='):
+            op = n['opcode']
+            for var_i, flip in ((0, False), (1, True)):
+                zero_ok = op in ('==', '!=')
+                key = self.as_var(n['inner'][var_i], zero_ok)
+                if key is None or not isinstance(env.get(key), V) or env[key].t[0] != 'int':
+                    continue
+                c = self.peek(n['inner'][1 - var_i], env)
+                if c is None or c.t[0] != 'int' or c.r[0] != c.r[1]:
+                    continue
+                cv = c.r[0]
+                o = op
+                if flip:
+                    o = {'<': '>', '>': '<', '<=': '>=', '>=': '<='}.get(op, op)
+                if not truth:
+                    o = {'==': '!=', '!=': '==', '<': '>=', '>=': '<', '>': '<=', '<=': '>'}[o]
+                if zero_ok and cv != 0 and self.as_var(n['inner'][var_i], False) is None:
+                    continue
+                if o == '==':
+                    return self.narrow(env, key, cv, cv)
+                if o == '!=':
+                    return self.narrow(env, key, nz=True) if cv == 0 else env
+                if o == '<':
+                    return self.narrow(env, key, hi=cv - 1)
+                if o == '<=':
+                    return self.narrow(env, key, hi=cv)
+                if o == '>':
+                    return self.narrow(env, key, lo=cv + 1)
+                return self.narrow(env, key, lo=cv)
+        return env
 
     # ------------------------------------------------------------- statements
     def fresh(self, base):
         self.cnt += 1
-        return f'{base}_{self.cnt}'
+        return f'{lean_id(base)}_{self.cnt}'
 
     def bump(self, name, op, env):
         """x++ / x-- as a statement: returns the let text"""
@@ -375,18 +645,53 @@ class Tr:
         env[name] = V(nv, v.t, r)
         return f'let {nv} := ({v.e} {"+" if op == "++" else "-"} 1#{v.t[1]})\n'
 
+    def flush_loads(self, env):
+        """log the loads from `mem` made by the expression(s) just translated"""
+        if not self.loads:
+            return ''
+        nv = self.fresh('ev')
+        evs = ', '.join(f'Ev.load ({o})' for o in self.loads)
+        txt = f'let {nv} := {env["$ev"].e} ++ [{evs}]\n'
+        env['$ev'] = V(nv, ('ev',))
+        self.loads = []
+        return txt
+
     def flush(self, env):
-        lets = ''
+        lets = self.flush_loads(env)
         for name, op in self.pending:
             lets += self.bump(name, op, env)
         self.pending = []
         return lets
+
+    def log(self, env, ev):
+        nv = self.fresh('ev')
+        txt = f'let {nv} := {env["$ev"].e} ++ [{ev}]\n'
+        env['$ev'] = V(nv, ('ev',))
+        return txt
+
+    def is_cut(self, s):
+        return bool(self.stop_at) and any(x.get('kind') == 'CallExpr' and callee_name(x) in self.stop_at
+                                          for x in walk(s))
+
+    def has_impure(self, n):
+        for x in walk(n):
+            if x.get('kind') == 'CallExpr':
+                name = callee_name(x)
+                if name in CLZ:
+                    continue
+                sig = self.mod.sigs.get(name) if self.mod else None
+                if sig is None or not sig.pure:
+                    return True
+        return False
 
     def stmts(self, ss, env, ret):
         if not ss:
             return ret(env)
         s, rest = ss[0], ss[1:]
         k = s['kind']
+        if self.stop_at and k not in ('CompoundStmt', 'IfStmt', 'WhileStmt', 'ForStmt', 'LabelStmt') \
+                and self.is_cut(s):
+            return ret(env, None, reach=True)
         if k == 'CompoundStmt':
             return self.stmts(s.get('inner', []) + rest, env, ret)
         if k == 'NullStmt':
@@ -402,8 +707,13 @@ class Tr:
                 name = d['name']
                 t = ctype(d)
                 if d.get('inner'):
-                    v = self.expr(d['inner'][0], env)
+                    init = d['inner'][0]
+                    if self.mod and self.has_impure(init):
+                        l2, init = self.hoist(init, env)
+                        lets += l2
+                    v = self.expr(init, env)
                     self.pure('an initialiser')
+                    lets += self.flush_loads(env)
                     if t[0] == 'int':
                         if v.t[0] == 'bool':
                             v = self.tobv(v)
@@ -415,15 +725,25 @@ class Tr:
                     # chosen here is never observable in well-defined executions
                     v = V('0' if t[0] == 'ptr' else f'0#{t[1]}', t if t[0] == 'int' else ('ptr', 'bytes'),
                           (0, 0) if t[0] == 'int' else None)
+                    if t[0] == 'int' and self.mod:
+                        v = V(v.e, t)        # unknown value: full range
                 nv = self.fresh(name)
                 lets += f'let {nv} := {v.e}\n'
-                env[name] = V(nv, v.t, v.r)
+                env[name] = V(nv, v.t, v.r, nz=v.nz)
             return lets + self.stmts(rest, env, ret)
         if k == 'ReturnStmt':
             if s.get('inner'):
-                v = self.expr(s['inner'][0], env)
+                lets = ''
+                e0 = s['inner'][0]
+                if self.mod and self.has_impure(e0):
+                    env = dict(env)
+                    lets, e0 = self.hoist(e0, env)
+                v = self.expr(e0, env)
                 self.pure('a return expression')
-                return ret(env, v)
+                if self.loads:
+                    env = dict(env)
+                    lets += self.flush_loads(env)
+                return lets + ret(env, v)
             return ret(env, None)
         if k == 'GotoStmt':
             lab = s['targetLabelDeclId']
@@ -431,22 +751,463 @@ class Tr:
                 self.refuse('goto to an unknown label')
             if lab in self.active_labels:
                 self.refuse('backward goto (loop)')
+            if self.loops and self.labels[lab][1] > 0:
+                self.refuse('goto to a label inside a loop')
             self.active_labels.append(lab)
+            saved = self.loops
+            self.loops = []           # the label is outside every loop: leaving them all
             try:
-                return self.stmts(self.labels[lab], env, ret)
+                return self.stmts(self.labels[lab][0], env, ret)
             finally:
                 self.active_labels.pop()
+                self.loops = saved
         if k == 'IfStmt':
             if len(s['inner']) not in (2, 3) or s.get('hasInit') or s.get('hasVar'):
                 self.refuse('if statement with init/declaration')
-            c = self.cond(s['inner'][0], env)
-            th = self.stmts([s['inner'][1]] + rest, dict(env), ret)
-            el = self.stmts(([s['inner'][2]] if len(s['inner']) > 2 else []) + rest, dict(env), ret)
-            return f'if {c} then\n{indent(th)}\nelse\n{indent(el)}'
+            c0 = s['inner'][0]
+
+            def th(e):
+                return self.stmts([s['inner'][1]] + rest, dict(e), ret)
+
+            def el(e):
+                return self.stmts(([s['inner'][2]] if len(s['inner']) > 2 else []) + rest, dict(e), ret)
+            if self.mod and self.has_impure(c0):
+                return self.branch(c0, dict(env), th, el)
+            if self.mod and any(x.get('kind') in ('WhileStmt', 'ForStmt') for r in rest for x in walk(r)) \
+                    and not self.escapes(s['inner'][1:]):
+                return self.join_if(s, rest, env, ret)
+            c = self.cond(c0, env)
+            lets = ''
+            if self.loads:
+                env = dict(env)
+                lets = self.flush_loads(env)
+            return lets + f'if {c} then\n{indent(th(self.refine(c0, env, True)))}\nelse\n' \
+                          f'{indent(el(self.refine(c0, env, False)))}'
+        if k in ('WhileStmt', 'ForStmt') and self.mod:
+            return self.loop(s, rest, env, ret)
+        if k == '$continue' or k == 'ContinueStmt':
+            if not self.loops:
+                self.refuse('continue outside a loop')
+            ctx = self.loops[-1]
+            if ctx['inc'] is not None and k != '$recur':
+                return self.stmts([ctx['inc'], {'kind': '$recur'}], env, ret)
+            return self.recur(ctx, env)
+        if k == '$recur':
+            return self.recur(self.loops[-1], env)
+        if k == 'BreakStmt':
+            if not self.loops:
+                self.refuse('break outside a loop')
+            ctx = self.loops[-1]
+            saved = self.loops
+            self.loops = self.loops[:-1]
+            try:
+                return self.stmts(ctx['rest'], env, ret)
+            finally:
+                self.loops = saved
+        if k == 'CallExpr' and self.mod:
+            env = dict(env)
+            name = callee_name(s)
+            if name in MEM_FUNCS:
+                lets = self.memfunc(name, s, env)
+            else:
+                lets, _ = self.call(s, env)
+            return lets + self.stmts(rest, env, ret)
         if k in ('BinaryOperator', 'CompoundAssignOperator', 'UnaryOperator'):
             env, lets = self.assign(s, env)
             return lets + self.stmts(rest, env, ret)
         self.refuse('statement kind ' + k)
+
+    def escapes(self, ss):
+        """may control leave the statements other than by falling off their end?"""
+        for st in ss:
+            for x in walk(st):
+                if x.get('kind') in ('ReturnStmt', 'GotoStmt', 'BreakStmt', 'ContinueStmt', 'LabelStmt',
+                                     'WhileStmt', 'ForStmt', 'DoStmt', 'SwitchStmt'):
+                    return True
+            if self.is_cut(st):
+                return True
+        return False
+
+    def join_if(self, s, rest, env, ret):
+        """`if` whose branches only assign: the assigned variables are joined with one
+        `let x := if c then .. else ..` so that the rest of the function is translated once"""
+        env = dict(env)
+        c0 = s['inner'][0]
+        c = self.cond(c0, env)
+        lets = self.flush_loads(env)
+        keys = [k for k in env if k in self.assigned_keys(s)]
+        if '$ev' in env:
+            keys.append('$ev')
+        ends = []
+
+        def kj(e, val=None, reach=False):
+            if val is not None or reach:
+                self.refuse('internal: escape from a joined if')
+            ends.append(e)
+            parts = [self.atom(e[k].e) for k in keys]
+            return '(' + ', '.join(parts) + ')' if len(parts) != 1 else parts[0]
+        tt = self.stmts([s['inner'][1]], self.refine(c0, env, True), kj)
+        et = self.stmts([s['inner'][2]] if len(s['inner']) > 2 else [], self.refine(c0, env, False), kj)
+        if not keys:
+            return lets + self.stmts(rest, env, ret)
+        j = self.fresh('j')
+        lets += f'let {j} := (\n  if {c} then\n{indent(indent(tt))}\n  else\n{indent(indent(et))})\n'
+        for i, k in enumerate(keys):
+            pr = j if len(keys) == 1 else j + '.2' * i + ('.1' if i < len(keys) - 1 else '')
+            rs = [e[k].r for e in ends]
+            r = (min(x[0] for x in rs), max(x[1] for x in rs)) if env[k].t[0] == 'int' else None
+            env[k] = V(pr, env[k].t, r, nz=all(e[k].nz for e in ends))
+        if any(e.get('$dirty') for e in ends):
+            env['$dirty'] = True
+        return lets + self.stmts(rest, env, ret)
+
+    # ------------------------------------------------------------------ loops
+    def lean_type(self, v):
+        t = v.t
+        if t[0] == 'int':
+            return f'BitVec {t[1]}'
+        if t[0] == 'bool':
+            return 'Bool'
+        if t[0] == 'ptr':
+            return 'Nat'
+        if t[0] == 'out':
+            return 'List (BitVec 8)'
+        if t[0] == 'ev':
+            return 'List Ev'
+        if t[0] == 'opt':
+            return f'Option ({t[1]})'
+        self.refuse('no Lean type for ' + str(t))
+
+    def assigned_keys(self, s):
+        """env keys that the statement may assign (over-approximation by syntax)"""
+        keys = set()
+        allf = False
+        for x in walk(s):
+            k = x.get('kind')
+            tgt = None
+            if k == 'BinaryOperator' and x.get('opcode') == '=' or k == 'CompoundAssignOperator':
+                tgt = x['inner'][0]
+            elif k == 'UnaryOperator' and x.get('opcode') in ('++', '--', '&'):
+                tgt = x['inner'][0]
+            elif k == 'CallExpr':
+                name = callee_name(x)
+                if name not in CLZ and name not in MEM_FUNCS:
+                    sig = self.mod.sigs.get(name) or self.mod.externs.get(name)
+                    if sig is None or sig.struct_mut:
+                        allf = True
+            if tgt is not None:
+                tgt = strip_parens(tgt)
+                if tgt.get('kind') == 'DeclRefExpr':
+                    keys.add(tgt['referencedDecl']['name'])
+                elif tgt.get('kind') == 'MemberExpr' and self.struct:
+                    keys.add(self.struct[0] + '->' + tgt['name'])
+                elif tgt.get('kind') == 'UnaryOperator' and tgt.get('opcode') == '*':
+                    pn = self.as_var(tgt['inner'][0], False)
+                    if pn is not None and self.roles.get(pn) == 'outval':
+                        keys.add('*' + pn)
+                elif tgt.get('kind') == 'ArraySubscriptExpr':
+                    pass
+                else:
+                    self.refuse('assignment target inside a loop: ' + str(tgt.get('kind')))
+        if allf and self.struct:
+            keys |= {self.struct[0] + '->' + f for f in self.struct[1].fields}
+        return keys
+
+    def loop(self, s, rest, env, ret):
+        k = s['kind']
+        if k == 'ForStmt':
+            if len(s['inner']) != 5:
+                self.refuse('for statement shape')
+            init, cvar, cond, inc, body = s['inner']
+            if cvar:
+                self.refuse('for statement with a condition variable')
+            if init:
+                s2 = dict(s)
+                s2['inner'] = [{}, {}, cond, inc, body]
+                return self.stmts([init, s2] + rest, env, ret)
+            if not cond:
+                self.refuse('for statement without a condition')
+            inc = inc if inc else None
+        else:
+            if len(s['inner']) != 2:
+                self.refuse('while statement with a condition variable')
+            cond, body = s['inner']
+            inc = None
+        if self.has_impure(cond):
+            self.refuse('call with side effects in a loop condition')
+        for x in walk(body):
+            if x.get('kind') in ('LabelStmt', 'SwitchStmt', 'DoStmt'):
+                self.refuse('contains ' + x['kind'] + ' inside a loop')
+        assigned = self.assigned_keys(s)
+        writes_mem = any(x.get('kind') == 'CallExpr' for x in walk(body)) or \
+            any(x.get('kind') in ('BinaryOperator', 'CompoundAssignOperator') and
+                strip_parens(x['inner'][0]).get('kind') in ('ArraySubscriptExpr', 'UnaryOperator')
+                for x in walk(body))
+        self.nloops += 1
+        lname = f'{self.fn}_loop{self.nloops}'
+        keys = [key for key, v in env.items() if isinstance(v, V) and v.t[0] != 'ptrptr']
+        env2 = dict(env)
+        params = []
+        args0 = []
+        if self.struct:
+            # an untouched struct value travels as one parameter
+            p, sd, _ = self.struct
+            fkeys = [p + '->' + f for f in sd.fields if sd.fields[f][0] != 'ptr']
+            sv = self.struct_val(env)
+            if not sv.startswith('({') and not any(fk in assigned for fk in fkeys):
+                pn = self.fresh(p)
+                params.append(f'({pn} : {sd.name})')
+                args0.append(sv)
+                for fk in fkeys:
+                    env2[fk] = V(f'{pn}.{lean_id(fk.split("->")[1])}', env[fk].t, env[fk].r, nz=env[fk].nz)
+                keys = [k for k in keys if k not in fkeys]
+                ctx_struct = pn
+        for key in keys:
+            v = env[key]
+            pn = self.fresh(key)
+            params.append(f'({pn} : {self.lean_type(v)})')
+            chg = key in assigned or key.startswith('$') or key.startswith('*')
+            env2[key] = V(pn, v.t, None if chg else v.r, nz=v.nz and not chg)
+        if writes_mem and self.struct:
+            env2['$dirty'] = True
+        args_now = ' '.join(args0 + [self.atom(env[key].e) for key in keys])
+        ctx = {'name': lname, 'keys': keys, 'inc': inc, 'rest': rest,
+               'fixed': [x[1:].split(' : ')[0] for x in params[:len(args0)]]}
+        c = self.cond(cond, env2)
+        lets = self.flush_loads(env2)
+        self.loops.append(ctx)
+        try:
+            body_t = self.stmts([body, {'kind': '$continue'}], self.refine(cond, env2, True), ret)
+        finally:
+            self.loops.pop()
+        exit_t = self.stmts(rest, self.refine(cond, env2, False), ret)
+        text = (f'def {lname} {self.sigparams}(n : Nat) {" ".join(params)} : {self.ret_type} :=\n'
+                f'  match n with\n  | 0 => none\n  | n + 1 =>\n'
+                + indent(indent(lets + f'if {c} then\n{indent(body_t)}\nelse\n{indent(exit_t)}')) + '\n')
+        self.loopdefs.append(text)
+        return f'{lname} {self.sigargs}fuel fuel {args_now}'
+
+    def atom(self, e):
+        e = e.strip()
+        if e.startswith('(') or e.replace('_', 'a').replace('.', 'a').isalnum():
+            return e
+        return f'({e})'
+
+    def recur(self, ctx, env):
+        args = ' '.join(ctx['fixed'] + [self.atom(env[key].e) for key in ctx['keys']])
+        return f'{ctx["name"]} {self.sigargs}fuel n {args}'
+
+    # ------------------------------------------------------------------ calls
+    def struct_val(self, env):
+        p, sd, _ = self.struct
+        flds = [f for f in sd.fields if sd.fields[f][0] != 'ptr']
+        e0 = env[p + '->' + flds[0]].e
+        suffix = '.' + lean_id(flds[0])
+        if e0.endswith(suffix):
+            base = e0[:-len(suffix)]
+            if all(env[p + '->' + f].e == base + '.' + lean_id(f) for f in flds):
+                return base
+        return '({ ' + ', '.join(f'{lean_id(f)} := {env[p + "->" + f].e}' for f in sd.fields
+                                 if sd.fields[f][0] != 'ptr') + f' }} : {sd.name})'
+
+    def call_text(self, n, sig, env, outs=None):
+        """Lean text of a call to a translated / extern function; returns (text, V of the C result)"""
+        args = n['inner'][1:]
+        if len(args) != len(sig.params):
+            self.refuse(f'call to {sig.name} with {len(args)} arguments')
+        regmap = {}
+        words = []
+        for a, (pname, role, pt) in zip(args, sig.params):
+            if role == 'struct':
+                b = a
+                while b.get('kind') in ('ImplicitCastExpr', 'ParenExpr'):
+                    b = b['inner'][-1]
+                if not self.struct or b.get('kind') != 'DeclRefExpr' or \
+                        b['referencedDecl']['name'] != self.struct[0]:
+                    self.refuse(f'call to {sig.name}: struct argument is not the struct parameter')
+                if sig.struct_mut and self.struct[2]:
+                    self.refuse(f'call to {sig.name}: const struct passed to a modifying function')
+                words.append(self.struct_val(env))
+            elif role == 'val':
+                v = self.expr(a, env)
+                if v.t[0] == 'bool':
+                    v = self.tobv(v)
+                if v.t[0] != 'int':
+                    self.refuse(f'call to {sig.name}: argument {pname} of type {v.t}')
+                words.append(self.atom(self.conv(v, pt).e))
+            elif role == 'outval':
+                b = strip_parens(a)
+                if b.get('kind') == 'UnaryOperator' and b.get('opcode') == '&' and \
+                        strip_parens(b['inner'][0]).get('kind') == 'DeclRefExpr':
+                    name = strip_parens(b['inner'][0])['referencedDecl']['name']
+                    if name not in env or env[name].t[0] != 'int' or env[name].t[1:] != pt[1:]:
+                        self.refuse(f'call to {sig.name}: &{name} does not have the pointee type')
+                    if outs is None:
+                        self.refuse(f'call to {sig.name}: out argument inside an expression')
+                    outs.append((pname, name))
+                else:
+                    self.refuse(f'call to {sig.name}: out argument is not &local')
+            elif isinstance(role, tuple) and role[0] == 'ptr':
+                v = self.expr(a, env)
+                if v.t[0] != 'ptr' or len(v.t) != 2 or v.t[1] in ('out', 'opaque'):
+                    self.refuse(f'call to {sig.name}: pointer argument of type {v.t}')
+                if regmap.setdefault(role[1], v.t[1]) != v.t[1]:
+                    self.refuse(f'call to {sig.name}: pointers into different regions for one region')
+                words.append(self.atom(v.e))
+            else:
+                self.refuse(f'call to {sig.name}: parameter role {role}')
+        self.pure('call arguments')
+        pre = []
+        for r in sig.regions:
+            if r == 'mem':
+                if not self.struct:
+                    self.refuse(f'call to {sig.name}: needs the struct\'s memory')
+                if sig.loads_mem and env.get('$dirty'):
+                    self.refuse(f'call to {sig.name}: loads from memory written earlier in this function')
+                pre.append('mem')
+            else:
+                if r not in regmap:
+                    self.refuse(f'call to {sig.name}: region {r} not determined by the arguments')
+                pre.append('rd' if regmap[r] == 'bytes' else regmap[r])
+        for x in sig.externs:
+            if x not in self.uses_ext:
+                self.uses_ext.append(x)
+            pre.append('ext_' + x)
+        if sig.extern:
+            if sig.name not in self.uses_ext:
+                self.uses_ext.append(sig.name)
+            fname = 'ext_' + sig.name
+        else:
+            fname = sig.name
+        if sig.fuel:
+            self.refuse(f'call to {sig.name}: it has loops (fuel)')
+        text = '(' + ' '.join([fname] + pre + words) + ')'
+        rv = None
+        if sig.ret is not None:
+            rv = V(text, ('bool',)) if sig.ret == 'bool' else V(text, sig.ret, sig.ret_range)
+        return text, rv
+
+    def call(self, n, env):
+        """call at statement level (env is updated in place); returns (lets, V of the C result)"""
+        name = callee_name(n)
+        sig = (self.mod.sigs.get(name) or self.mod.externs.get(name)) if self.mod else None
+        if sig is None:
+            self.refuse('call to ' + str(name) + ' (not translated, not declared extern)')
+        outs = []
+        text, rv = self.call_text(n, sig, env, outs)
+        lets = self.flush_loads(env)
+        comps = sig.comps
+        if len(comps) <= 1 and not outs and not sig.struct_mut and not sig.has_ev:
+            return lets, rv
+        r = self.fresh('r')
+        lets += f'let {r} := {text[1:-1]}\n'
+
+        def proj(i):
+            if len(comps) == 1:
+                return r
+            return r + '.2' * i + ('.1' if i < len(comps) - 1 else '')
+        rv2 = None
+        for i, c in enumerate(comps):
+            if c == 'ret':
+                rv2 = V(proj(i), ('bool',)) if sig.ret == 'bool' else V(proj(i), sig.ret, sig.ret_range)
+            elif c == 'struct':
+                p, sd, _ = self.struct
+                for f, ft in sd.fields.items():
+                    if ft[0] != 'ptr':
+                        env[p + '->' + f] = V(f'{proj(i)}.{lean_id(f)}', ft)
+            elif c == 'ev':
+                nv = self.fresh('ev')
+                lets += f'let {nv} := {env["$ev"].e} ++ {proj(i)}\n'
+                env['$ev'] = V(nv, ('ev',))
+            elif c[0] == 'out':
+                tgt = [x for x in outs if x[0] == c[1]]
+                if not tgt:
+                    self.refuse(f'call to {sig.name}: out parameter {c[1]} not bound')
+                old = env[tgt[0][1]]
+                nv = self.fresh(tgt[0][1])
+                lets += f'let {nv} := ({proj(i)}).getD {self.atom(old.e)}\n'
+                env[tgt[0][1]] = V(nv, old.t)
+            else:
+                self.refuse('result component ' + str(c))
+        if sig.writes_mem or sig.extern:
+            env['$dirty'] = True
+        return lets, rv2
+
+    def hoist(self, n, env):
+        """perform the (single) call with side effects inside expression `n` first; returns
+        (lets, n with the call replaced by its value).  Only through casts / parentheses, so the
+        evaluation order is not changed."""
+        k = n.get('kind')
+        if k == 'CallExpr':
+            lets, rv = self.call(n, env)
+            if rv is None:
+                self.refuse('value of a void call')
+            return lets, {'kind': '$V', 'v': rv}
+        if k in ('ParenExpr', 'ConstantExpr', 'ImplicitCastExpr', 'CStyleCastExpr'):
+            lets, sub = self.hoist(n['inner'][-1], env)
+            n2 = dict(n)
+            n2['inner'] = n['inner'][:-1] + [sub]
+            return lets, n2
+        self.refuse('call with side effects inside a larger expression')
+
+    def branch(self, n, env, kt, kf):
+        """if-condition that contains calls with side effects: C's short-circuit order made explicit"""
+        n = strip_parens(n)
+        k = n.get('kind')
+        if k == 'BinaryOperator' and n['opcode'] == '||':
+            return self.branch(n['inner'][0], env, kt, lambda e: self.branch(n['inner'][1], dict(e), kt, kf))
+        if k == 'BinaryOperator' and n['opcode'] == '&&':
+            return self.branch(n['inner'][0], env, lambda e: self.branch(n['inner'][1], dict(e), kt, kf), kf)
+        if k == 'UnaryOperator' and n['opcode'] == '!':
+            return self.branch(n['inner'][0], env, kf, kt)
+        if k == 'ImplicitCastExpr' and n.get('castKind') in ('IntegralToBoolean', 'IntegralCast') and \
+                self.has_impure(n):
+            return self.branch(n['inner'][-1], env, kt, kf)
+        lets = ''
+        if self.has_impure(n):
+            if k != 'CallExpr':
+                self.refuse('call with side effects inside a larger condition')
+            lets, rv = self.call(n, env)
+            if rv is None:
+                self.refuse('void call as a condition')
+            c = rv.e if rv.t[0] == 'bool' else f'({rv.e} != 0#{rv.t[1]})'
+            return lets + f'if {c} then\n{indent(kt(env))}\nelse\n{indent(kf(env))}'
+        c = self.cond(n, env)
+        lets = self.flush_loads(env)
+        return lets + f'if {c} then\n{indent(kt(self.refine(n, env, True)))}\nelse\n' \
+                      f'{indent(kf(self.refine(n, env, False)))}'
+
+    def memfunc(self, name, n, env):
+        """memcpy / memmove / memset on the struct's memory region, as an effect"""
+        if not self.struct:
+            self.refuse(name + ' without a struct parameter')
+        a = n['inner'][1:]
+        if len(a) != 3:
+            self.refuse(name + ' argument count')
+        dst = self.expr(a[0], env)
+        if dst.t != ('ptr', 'mem'):
+            self.refuse(name + ': destination is not inside the struct\'s memory')
+        ln = self.expr(a[2], env)
+        if ln.t[0] != 'int' or ln.t[2]:
+            self.refuse(name + ': length of type ' + str(ln.t))
+        if name == 'memset':
+            v = self.expr(a[1], env)
+            if v.t[0] != 'int':
+                self.refuse('memset value of type ' + str(v.t))
+            ev = f'Ev.memset ({dst.e}) {self.conv(v, ("int", 8, False)).e} ({ln.e}).toNat'
+        else:
+            src = self.expr(a[1], env)
+            if src.t == ('ptr', 'opaque'):
+                ev = f'Ev.memcpyIn ({dst.e}) ({ln.e}).toNat'
+            elif src.t == ('ptr', 'mem') and name == 'memmove':
+                ev = f'Ev.memmove ({dst.e}) ({src.e}) ({ln.e}).toNat'
+            else:
+                self.refuse(name + ': source of type ' + str(src.t))
+        self.pure(name + ' arguments')
+        lets = self.flush_loads(env)
+        lets += self.log(env, ev)
+        env['$dirty'] = True
+        return lets
 
     def assign(self, s, env):
         env = dict(env)
@@ -457,49 +1218,103 @@ class Tr:
             while n['kind'] == 'ParenExpr':
                 n = n['inner'][0]
             return n
+
+        def var_key(n):
+            """env key of an assignable variable / struct field, or None"""
+            if n['kind'] == 'DeclRefExpr':
+                return n['referencedDecl']['name']
+            if n['kind'] == 'MemberExpr' and self.mod:
+                key, fld = self.field_key(n)
+                if fld[0] == 'ptr':
+                    self.refuse('assignment to the struct\'s pointer field')
+                return key
+            return None
         if k == 'UnaryOperator':
             if op not in ('++', '--'):
                 self.refuse('expression statement ' + op)
             tgt = target(s['inner'][0])
-            if tgt['kind'] != 'DeclRefExpr':
+            key = var_key(tgt)
+            if key is None:
                 self.refuse('++ of a non-variable')
-            return env, self.bump(tgt['referencedDecl']['name'], op, env)
+            return env, self.bump(key, op, env)
         if k == 'BinaryOperator' and op != '=':
             self.refuse('expression statement ' + op)
         lhs = target(s['inner'][0])
         rhs = s['inner'][1]
+        lets0 = ''
+        if self.mod and self.has_impure(rhs):
+            if op != '=':
+                self.refuse('compound assignment from a call with side effects')
+            lets0, rhs = self.hoist(rhs, env)
+        key = var_key(lhs)
         if op != '=':
-            fake = {'kind': 'BinaryOperator', 'opcode': op[:-1], 'inner': [s['inner'][0], rhs],
-                    'type': s.get('computeResultType', s['type'])}
-            v = self.expr(fake, env)
+            if key is not None and env[key].t[0] == 'ptr' and self.mod and op == '+=':
+                v = self.expr(rhs, env)
+                if v.t[0] != 'int' or v.r[0] < 0:
+                    self.refuse('pointer += possibly negative / non-integer')
+                v = V(f'({env[key].e} + ({v.e}).toNat)', env[key].t)
+            else:
+                fake = {'kind': 'BinaryOperator', 'opcode': op[:-1], 'inner': [s['inner'][0], rhs],
+                        'type': s.get('computeResultType', s['type'])}
+                if self.mod and 'computeLHSType' in s:
+                    # the left operand is converted to the computation type first
+                    fake['inner'] = [{'kind': 'ImplicitCastExpr', 'castKind': 'IntegralCast',
+                                      'type': s['computeLHSType'],
+                                      'inner': [{'kind': 'ImplicitCastExpr', 'castKind': 'LValueToRValue',
+                                                 'type': s['inner'][0]['type'], 'inner': [s['inner'][0]]}]}, rhs]
+                v = self.expr(fake, env)
         else:
             v = self.expr(rhs, env)
-        if lhs['kind'] == 'DeclRefExpr':
-            name = lhs['referencedDecl']['name']
-            if name not in env:
-                self.refuse('assignment to ' + name)
-            old = env[name]
+        if key is not None:
+            if key not in env:
+                self.refuse('assignment to ' + key)
+            old = env[key]
             if old.t[0] == 'int':
                 if v.t[0] == 'bool':
                     v = self.tobv(v)
                 if v.t[0] != 'int':
                     self.refuse('integer assigned from ' + str(v.t))
                 v = self.conv(v, ctype(lhs))
+            elif old.t[0] == 'bool':
+                if v.t[0] == 'int':
+                    v = V(v.b if v.b is not None else f'({v.e} != 0#{v.t[1]})', ('bool',))
+                if v.t[0] != 'bool':
+                    self.refuse('bool assigned from ' + str(v.t))
             elif old.t[0] == 'ptr':
-                if v.t != old.t:
+                if v.t != old.t and not (self.mod and v.t[0] == 'ptr' and old.e == '0'
+                                         and old.t == ('ptr', 'bytes')):
                     self.refuse('pointer assigned from ' + str(v.t))
             else:
                 self.refuse('assignment to ' + str(old.t))
-            nv = self.fresh(name)
-            env[name] = V(nv, v.t, v.r)
-            lets = f'let {nv} := {v.e}\n'
+            nv = self.fresh(key)
+            env[key] = V(nv, v.t, v.r, nz=v.nz)
+            lets = lets0 + f'let {nv} := {v.e}\n'
             lets += self.flush(env)
             return env, lets
-        self.pure('a store')
+        if lhs['kind'] == 'ArraySubscriptExpr' and self.mod:
+            # p[i] = e  with p inside the struct's memory
+            b = self.expr(lhs['inner'][0], env)
+            i = self.expr(lhs['inner'][1], env)
+            if b.t != ('ptr', 'mem') or i.t[0] != 'int' or i.r[0] < 0:
+                self.refuse('store through ' + str(b.t))
+            if v.t[0] == 'bool':
+                v = self.tobv(v)
+            if v.t[0] != 'int':
+                self.refuse('store of ' + str(v.t))
+            t = ctype(lhs)
+            if t[0] != 'int' or t[1] != 8:
+                self.refuse('store of a non-byte')
+            v = self.conv(v, t)
+            lets = lets0 + self.flush_loads(env)
+            lets += self.log(env, f'Ev.store ({b.e} + ({i.e}).toNat) {self.atom(v.e)}')
+            env['$dirty'] = True
+            lets += self.flush(env)
+            return env, lets
         if lhs['kind'] == 'UnaryOperator' and lhs['opcode'] == '*':
             sub = target(lhs['inner'][0])
             # *dst++ = e   (store through the output pointer, post-increment)
             if sub['kind'] == 'UnaryOperator' and sub['opcode'] == '++' and sub.get('isPostfix'):
+                self.pure('a store')
                 pn = target(sub['inner'][0])['referencedDecl']['name']
                 p = env[pn]
                 if p.t != ('ptr', 'out'):
@@ -515,6 +1330,27 @@ class Tr:
                 env['$out'] = V(o, ('out',))
                 env[pn] = V(nv, p.t)
                 return env, f'let {o} := {oe} ++ [({v.e} : BitVec 8)]\nlet {nv} := {p.e} + 1\n'
+            if sub['kind'] == 'ImplicitCastExpr' and sub.get('castKind') == 'LValueToRValue' and \
+                    target(sub['inner'][0])['kind'] == 'DeclRefExpr' and self.mod and \
+                    self.roles.get(target(sub['inner'][0])['referencedDecl']['name']) == 'outval':
+                # *dst_p = e   (scalar out parameter)
+                pn = target(sub['inner'][0])['referencedDecl']['name']
+                old = env['*' + pn]
+                if old.t[1] == 'Nat':
+                    if v.t != ('ptr', 'mem'):
+                        self.refuse('pointer out-parameter assigned from ' + str(v.t))
+                else:
+                    if v.t[0] == 'bool':
+                        v = self.tobv(v)
+                    if v.t[0] != 'int':
+                        self.refuse('out-parameter assigned from ' + str(v.t))
+                    v = self.conv(v, ctype(lhs))
+                nv = self.fresh('out_' + pn)
+                env['*' + pn] = V(nv, old.t)
+                lets = lets0 + self.flush_loads(env) + f'let {nv} := some {self.atom(v.e)}\n'
+                lets += self.flush(env)
+                return env, lets
+            self.pure('a store')
             p = self.expr(sub, env)
             self.pure('a store')
             if p.t[0] == 'ptrptr':      # *src_p = p   /  *dst_p = dst
@@ -525,20 +1361,28 @@ class Tr:
         self.refuse('assignment form')
 
 
-def collect_labels(n, tr):
-    """label -> statements from the label to the end of the enclosing compound"""
+def collect_labels(n, tr, depth=0):
+    """label -> (statements from the label to the end of the enclosing compound, loop depth)"""
     if n.get('kind') == 'CompoundStmt':
         inner = n.get('inner', [])
         for i, s in enumerate(inner):
             t = s
             while t.get('kind') == 'LabelStmt':
-                tr.labels[t['declId']] = [t['inner'][0]] + inner[i + 1:]
+                tr.labels[t['declId']] = ([t['inner'][0]] + inner[i + 1:], depth)
                 t = t['inner'][0]
-    if n.get('kind') in ('WhileStmt', 'ForStmt', 'DoStmt', 'SwitchStmt', 'CallExpr'):
-        tr.refuse('contains ' + n['kind'])
+    if tr.mod is None:
+        if n.get('kind') in ('WhileStmt', 'ForStmt', 'DoStmt', 'SwitchStmt', 'CallExpr'):
+            tr.refuse('contains ' + n['kind'])
+    else:
+        if n.get('kind') in ('DoStmt', 'SwitchStmt'):
+            tr.refuse('contains ' + n['kind'])
+        if n.get('kind') == 'LabelStmt' and depth > 0:
+            tr.refuse('label inside a loop')
+        if n.get('kind') in ('WhileStmt', 'ForStmt'):
+            depth += 1
     for c in n.get('inner', []):
         if isinstance(c, dict):
-            collect_labels(c, tr)
+            collect_labels(c, tr, depth)
 
 
 def translate(src, fn, roles, rettype, extra=(), repo=None, flt=None):
@@ -576,7 +1420,7 @@ def translate(src, fn, roles, rettype, extra=(), repo=None, flt=None):
         tr.refuse('parameters %s not found (signature changed)' % sorted(missing))
     env['$out'] = V('([] : List (BitVec 8))', ('out',))
 
-    def ret(env, val=None):
+    def ret(env, val=None, reach=False):
         parts = []
         if rettype is not None:
             if val is None:
@@ -607,6 +1451,372 @@ def translate(src, fn, roles, rettype, extra=(), repo=None, flt=None):
     return f'def {fn} {" ".join(sig)} :=\n{indent(term)}\n'
 
 
+# ------------------------------------------------------------- second generation: modules
+class StructDef:
+    def __init__(self, name, fields):
+        self.name = name
+        self.fields = fields       # C field name -> ('int', w, signed) | ('bool',) | ('ptr',)
+
+    def lean(self):
+        out = f'structure {self.name} where\n'
+        for f, t in self.fields.items():
+            if t[0] == 'ptr':
+                continue
+            out += f'  {lean_id(f)} : {"Bool" if t[0] == "bool" else "BitVec %d" % t[1]}\n'
+        return out + 'deriving DecidableEq, Repr\n'
+
+
+class Sig:
+    """what callers need to know about a translated (or extern) function"""
+
+    def __init__(self, name, params, ret, comps, **kw):
+        self.name = name
+        self.params = params       # [(C name, role, C type of the value / pointee)]
+        self.ret = ret             # None | 'bool' | ('int', w, signed)
+        self.comps = comps         # result tuple: 'ret' | 'struct' | 'ev' | ('out', param)
+        self.ret_range = kw.get('ret_range')
+        self.struct_mut = kw.get('struct_mut', False)
+        self.has_ev = kw.get('has_ev', False)
+        self.writes_mem = kw.get('writes_mem', False)
+        self.loads_mem = kw.get('loads_mem', False)
+        self.regions = kw.get('regions', [])
+        self.externs = kw.get('externs', [])
+        self.fuel = kw.get('fuel', False)
+        self.extern = kw.get('extern', False)
+        self.cut = kw.get('cut', False)
+        self.pure = (not self.struct_mut and not self.has_ev and not self.externs and not self.fuel
+                     and not self.extern and not self.cut and comps == ['ret'])
+
+
+EV_PRELUDE = '''/-- effects on the bytes behind the struct's pointer field (`mem`), in program order.
+    Offsets and lengths are naturals (an access beyond 4 GiB is still seen as such). -/
+inductive Ev where
+  /-- `p[ofs]` read -/
+  | load (ofs : Nat)
+  /-- `p[ofs] = v` -/
+  | store (ofs : Nat) (v : BitVec 8)
+  /-- `memcpy(p + dst, q, len)` with `q` a pointer of the caller (not inside `mem`) -/
+  | memcpyIn (dst len : Nat)
+  /-- `memset(p + dst, v, len)` -/
+  | memset (dst : Nat) (v : BitVec 8) (len : Nat)
+  /-- `memmove(p + dst, p + src, len)` -/
+  | memmove (dst src len : Nat)
+deriving DecidableEq, Repr
+'''
+
+
+def ret_ctype(d):
+    q = d['type']['qualType']
+    head = q.split('(')[0].strip()
+    if head == 'void':
+        return None
+    if head in ('bool', '_Bool'):
+        return 'bool'
+    if head in INT_TYPES:
+        return ('int',) + INT_TYPES[head]
+    raise Refused('%s: unsupported return type %s' % (d.get('name'), head))
+
+
+class Module:
+    """a Lean module generated from one C translation unit (`src` may be a stub that #includes
+    the real files); functions are added in dependency order"""
+
+    def __init__(self, src, repo=None, flt=None, extra=()):
+        self.repo = repo or _default_repo()
+        self.src = src
+        self.flt = flt
+        self.extra = extra
+        self.sigs = {}
+        self.externs = {}
+        self.structs = {}
+        self.parts = []
+        self.need_ev = False
+
+    # ---- declarations
+    def struct(self, cname):
+        for d in ast_docs(self.src, cname, self.repo, self.extra):
+            if d.get('kind') == 'RecordDecl' and d.get('name') == cname and d.get('completeDefinition'):
+                fields = {}
+                for f in d.get('inner', []):
+                    if f.get('kind') != 'FieldDecl':
+                        continue
+                    if f.get('isBitfield'):
+                        raise Refused(f'struct {cname}: bit-field {f["name"]}')
+                    q = f['type'].get('desugaredQualType', f['type']['qualType'])
+                    if q in ('bool', '_Bool'):
+                        fields[f['name']] = ('bool',)
+                    elif q.endswith('*'):
+                        if q.replace('const ', '').strip() not in ('uint8_t *', 'unsigned char *', 'char *'):
+                            raise Refused(f'struct {cname}: pointer field {f["name"]} of type {q}')
+                        if any(t[0] == 'ptr' for t in fields.values()):
+                            raise Refused(f'struct {cname}: more than one pointer field')
+                        fields[f['name']] = ('ptr',)
+                    else:
+                        fields[f['name']] = ctype(f)
+                sd = StructDef(cname, fields)
+                self.structs[cname] = sd
+                self.parts.append(sd.lean())
+                if any(t[0] == 'ptr' for t in fields.values()):
+                    self.need_ev = True
+                return sd
+        raise Refused('no definition of struct ' + cname)
+
+    def extern(self, name, params, ret, struct_mut=True):
+        """a function that is called but not translated: it becomes a parameter `ext_<name>`.
+        params: [(C name, role, C type)] with roles 'struct' | 'val'"""
+        comps = (['ret'] if ret is not None else []) + (['struct'] if struct_mut else [])
+        self.externs[name] = Sig(name, params, ret, comps, struct_mut=struct_mut, extern=True,
+                                 writes_mem=True, loads_mem=True)
+
+    def lean_fn_type(self, sig):
+        """Lean type of the parameter that stands for an extern function"""
+        dom = []
+        for pname, role, pt in sig.params:
+            if role == 'struct':
+                dom.append(pt)
+            elif role == 'val':
+                dom.append(f'BitVec {pt[1]}')
+            else:
+                raise Refused(f'extern {sig.name}: role {role}')
+        cod = []
+        for c in sig.comps:
+            if c == 'ret':
+                cod.append('Bool' if sig.ret == 'bool' else f'BitVec {sig.ret[1]}')
+            elif c == 'struct':
+                cod.append([pt for _, role, pt in sig.params if role == 'struct'][0])
+        return ' → '.join(dom + [' × '.join(cod) if cod else 'Unit'])
+
+    # ---- one function
+    def fn(self, cname, roles, stop_at=(), keep=(), flt=None, lean_name=None):
+        d = ast_of(self.src, cname, self.repo, self.extra, flt or self.flt or cname)
+        name = lean_name or cname
+        tr = Tr(name, roles, mod=self)
+        tr.stop_at = tuple(stop_at)
+        tr.keep = tuple(keep)
+        body = [c for c in d['inner'] if c['kind'] == 'CompoundStmt'][0]
+        collect_labels(body, tr)
+        rett = ret_ctype(d)
+        has_loop = any(x.get('kind') in ('WhileStmt', 'ForStmt') for x in walk(body))
+        pdecls = [c for c in d['inner'] if c['kind'] == 'ParmVarDecl']
+        missing = set(roles) - {p['name'] for p in pdecls}
+        if missing:
+            tr.refuse('parameters %s not found (signature changed)' % sorted(missing))
+        env = {}
+        cparams, leanparams, regions, outs = [], [], [], []
+        for p in pdecls:
+            pn = p['name']
+            if pn not in roles:
+                tr.refuse('parameter ' + pn + ' has no role (signature changed)')
+            role = roles[pn]
+            q = p['type'].get('desugaredQualType', p['type']['qualType'])
+            if role == 'val':
+                t = ctype(p)
+                if t[0] != 'int':
+                    tr.refuse('value parameter of type ' + str(t))
+                env[pn] = V(lean_id(pn), t)
+                leanparams.append(f'({lean_id(pn)} : BitVec {t[1]})')
+                cparams.append((pn, 'val', t))
+            elif role == 'struct':
+                if tr.struct:
+                    tr.refuse('more than one struct parameter')
+                w = q.split()
+                const = w[0] == 'const'
+                if const:
+                    w = w[1:]
+                if len(w) != 3 or w[0] != 'struct' or w[2] != '*' or w[1] not in self.structs:
+                    tr.refuse(f'struct parameter {pn} of type {q}')
+                sd = self.structs[w[1]]
+                tr.struct = (pn, sd, const)
+                for f, ft in sd.fields.items():
+                    if ft[0] != 'ptr':
+                        env[pn + '->' + f] = V(f'{lean_id(pn)}.{lean_id(f)}', ft)
+                leanparams.append(f'({lean_id(pn)} : {sd.name})')
+                cparams.append((pn, 'struct', sd.name))
+            elif role == 'outval':
+                if not q.endswith('*'):
+                    tr.refuse(f'out parameter {pn} of type {q}')
+                pointee = q[:-1].strip()
+                if pointee.endswith('*'):
+                    lt, pt = 'Nat', ('ptr',)
+                else:
+                    pq = pointee.replace('const ', '').strip()
+                    pq2 = p['type']['qualType'][:-1].replace('const ', '').strip()
+                    if pq in INT_TYPES:
+                        pt = ('int',) + INT_TYPES[pq]
+                    elif pq2 in INT_TYPES:
+                        pt = ('int',) + INT_TYPES[pq2]
+                    else:
+                        tr.refuse(f'out parameter {pn} of type {q}')
+                    lt = f'BitVec {pt[1]}'
+                env['*' + pn] = V(f'(none : Option ({lt}))', ('opt', lt))
+                outs.append(pn)
+                cparams.append((pn, 'outval', pt))
+            elif isinstance(role, tuple) and role[0] == 'ptr':
+                if not q.endswith('*') or q[:-1].replace('const ', '').strip() not in \
+                        ('char', 'unsigned char', 'uint8_t', 'signed char'):
+                    tr.refuse(f'pointer parameter {pn} of type {q} is not a byte pointer')
+                if role[1] in ('mem', 'bytes', 'out', 'opaque') or role[1] in LEAN_KEYWORDS - {'rd'}:
+                    tr.refuse('region name ' + role[1])
+                env[pn] = V(lean_id(pn), ('ptr', role[1]))
+                leanparams.append(f'({lean_id(pn)} : Nat)')
+                if role[1] not in regions:
+                    regions.append(role[1])
+                cparams.append((pn, role, ('ptr',)))
+            elif role == 'src':
+                if not q.endswith('*'):
+                    tr.refuse(f'source parameter {pn} of type {q}')
+                env[pn] = V('0', ('ptr', 'opaque'))
+                cparams.append((pn, 'src', ('ptr',)))
+            else:
+                tr.refuse(f'role {role} of parameter {pn}')
+        # what the body touches (by syntax; decides the shape of the result before translating)
+        uses_mem = False
+        ext_used = []
+        scan = []
+        for st in body.get('inner', []):
+            if tr.is_cut(st) and st.get('kind') not in ('CompoundStmt', 'IfStmt', 'WhileStmt', 'ForStmt',
+                                                          'LabelStmt'):
+                break
+            scan.append(st)
+        for x in (y for st in scan for y in walk(st)):
+            if x.get('kind') == 'MemberExpr' and tr.struct and \
+                    tr.struct[1].fields.get(x.get('name'), ('?',))[0] == 'ptr':
+                uses_mem = True
+            if x.get('kind') == 'CallExpr':
+                cn = callee_name(x)
+                if cn in self.sigs:
+                    s2 = self.sigs[cn]
+                    if 'mem' in s2.regions or s2.has_ev:
+                        uses_mem = True
+                    for e in s2.externs:
+                        if e not in ext_used:
+                            ext_used.append(e)
+                elif cn in self.externs and cn not in tr.stop_at:
+                    if cn not in ext_used:
+                        ext_used.append(cn)
+        if uses_mem:
+            regions = ['mem'] + regions
+            env['$ev'] = V('([] : List Ev)', ('ev',))
+        struct_mut = bool(tr.struct) and not tr.struct[2]
+        comps = (['ret'] if rett is not None else []) + (['struct'] if struct_mut else []) + \
+                (['ev'] if uses_mem else []) + [('out', o) for o in outs]
+
+        def comp_type(c):
+            if c == 'ret':
+                return 'Bool' if rett == 'bool' else f'BitVec {rett[1]}'
+            if c == 'struct':
+                return tr.struct[1].name
+            if c == 'ev':
+                return 'List Ev'
+            return env['*' + c[1]].t[1].join(['Option (', ')'])
+        tys = [comp_type(c) for c in comps]
+        rt = ' × '.join(tys) if tys else 'Unit'
+        tr.has_loop = has_loop
+        sigp = [f'({r} : Nat → BitVec 8)' for r in regions]
+        siga = list(regions)
+        for e in ext_used:
+            sigp.append(f'(ext_{e} : {self.lean_fn_type(self.externs[e])})')
+            siga.append('ext_' + e)
+        if has_loop:
+            sigp.append('(fuel : Nat)')
+        tr.sigparams = ''.join(x + ' ' for x in sigp)
+        tr.sigargs = ''.join(x + ' ' for x in siga)
+        cut_types = {}
+
+        def tuple_of(parts):
+            if not parts:
+                return '()'
+            return '(' + ', '.join(parts) + ')' if len(parts) > 1 else parts[0]
+
+        def ret(env, val=None, reach=False):
+            parts = []
+            if reach:
+                for kv in tr.keep:
+                    if kv not in env or env[kv].t[0] != 'int':
+                        tr.refuse('cut point: ' + kv + ' is not an integer variable in scope')
+                    cut_types[kv] = f'BitVec {env[kv].t[1]}'
+                    parts.append(env[kv].e)
+            elif rett is not None:
+                if val is None:
+                    tr.refuse('control reaches the end of a non-void function')
+                if rett == 'bool':
+                    if val.t[0] == 'bool':
+                        e = val.e
+                    elif val.t[0] != 'int':
+                        tr.refuse('return of ' + str(val.t))
+                    elif val.b is not None:
+                        e = val.b
+                    else:
+                        e = f'({val.e} != 0#{val.t[1]})'
+                else:
+                    if val.t[0] == 'bool':
+                        val = tr.tobv(val)
+                    if val.t[0] != 'int':
+                        tr.refuse('return of ' + str(val.t))
+                    cv = tr.conv(val, rett)
+                    tr.ret_ranges.append(cv.r)
+                    e = cv.e
+                parts.append(e)
+            for c in comps:
+                if c == 'struct':
+                    parts.append(tr.struct_val(env))
+                elif c == 'ev':
+                    parts.append(env['$ev'].e)
+                elif c != 'ret' and not reach:
+                    parts.append(env['*' + c[1]].e)
+            t = tuple_of(parts)
+            if tr.stop_at:
+                t = f'(Sum.{"inr" if reach else "inl"} {t})' if t.startswith('(') else \
+                    f'(Sum.{"inr" if reach else "inl"} ({t}))'
+            if has_loop:
+                t = f'some {t}' if t.startswith('(') else f'some ({t})'
+            return t
+        # the result type must be known while translating loops; with a cut point the types of the
+        # kept variables are those of their declarations
+        if tr.stop_at:
+            kts = []
+            for kv in tr.keep:
+                dv = [x for x in walk(body) if x.get('kind') == 'VarDecl' and x.get('name') == kv]
+                pv = [p for p in pdecls if p['name'] == kv]
+                if not (dv or pv):
+                    tr.refuse('cut point: no variable ' + kv)
+                kts.append(f'BitVec {ctype((dv or pv)[0])[1]}')
+            reach_t = ' × '.join(kts + [comp_type(c) for c in comps if c in ('struct', 'ev')]) or 'Unit'
+            rt = f'Sum ({rt}) ({reach_t})'
+        if has_loop:
+            rt = f'Option ({rt})'
+        tr.ret_type = rt
+        term = tr.stmts(body['inner'], env, ret)
+        if set(tr.uses_ext) - set(ext_used):
+            tr.refuse('internal: extern functions not found by the pre-scan')
+        text = ''.join(x + '\n' for x in tr.loopdefs)
+        text += f'def {name} {tr.sigparams}{" ".join(leanparams)} : {rt} :=\n{indent(term)}\n'
+        rr = None
+        if rett not in (None, 'bool') and tr.ret_ranges:
+            rr = (min(r[0] for r in tr.ret_ranges), max(r[1] for r in tr.ret_ranges))
+        txt_all = text
+        self.sigs[cname] = Sig(name, cparams, rett, comps, ret_range=rr, struct_mut=struct_mut,
+                               has_ev=uses_mem, regions=regions, externs=ext_used, fuel=has_loop,
+                               cut=bool(tr.stop_at),
+                               writes_mem=('Ev.store' in txt_all or 'Ev.mem' in txt_all or bool(ext_used)
+                                           or any(self.sigs[callee_name(x)].writes_mem for x in walk(body)
+                                                  if x.get('kind') == 'CallExpr' and callee_name(x) in self.sigs)),
+                               loads_mem=('Ev.load' in txt_all or bool(ext_used)
+                                          or any(self.sigs[callee_name(x)].loads_mem for x in walk(body)
+                                                 if x.get('kind') == 'CallExpr' and callee_name(x) in self.sigs)))
+        self.parts.append(text)
+        return text
+
+    def text(self, namespace, header):
+        out = '/- ' + header.strip() + ' -/\nset_option linter.unusedVariables false\n'
+        out += f'namespace {namespace}\n\n'
+        if self.need_ev:
+            out += EV_PRELUDE + '\n'
+        out += '\n'.join(p.rstrip() + '\n' for p in self.parts)
+        out += f'\nend {namespace}\n'
+        return out
+
+
 # ---------------------------------------------------------------------------- utf8.c (C11)
 UTF8_FUNCS = [
     ('utf8_validate_seq', {'src': 'in', 'srcend': 'end'}, 32),
@@ -631,6 +1841,122 @@ def utf8_module(repo=None):
         out += translate(src, fn, roles, rt, repo=repo, flt='utf8_') + '\n'
     out += 'end Usual.Gen.C11\n'
     return out
+
+
+# ------------------------------------------------------------------ <Cxx>T modules (DESIGN 10.22)
+GEN_NOTE = ('GENERATED by extract/c2lean.py from %s on every run of checks/%s.py; do not edit.\n'
+            '   C integers are BitVec terms with the casts clang made explicit; see the head of\n'
+            '   extract/c2lean.py and DESIGN.md 10.22 for the subset and its trusted semantics.')
+U32 = ('int', 32, False)
+
+
+def _stub(workdir, name, text):
+    os.makedirs(workdir, exist_ok=True)
+    p = os.path.join(workdir, name)
+    if not os.path.exists(p) or open(p).read() != text:
+        with open(p, 'w') as f:
+            f.write(text)
+    return p
+
+
+def c12t_module(repo=None, workdir='/tmp'):
+    """usual/mbuf.h inlines + the bounds/growth prefix of mbuf_make_room (usual/mbuf.c)"""
+    repo = repo or _default_repo()
+    stub = _stub(workdir, 'c12t_stub.c', '#include <usual/mbuf.h>\n#include "usual/mbuf.c"\n')
+    m = Module(stub, repo, flt='mbuf_')
+    m.struct('MBuf')
+    m.extern('mbuf_make_room', [('buf', 'struct', 'MBuf'), ('len', 'val', U32)], 'bool')
+    S = {'buf': 'struct'}
+    for f in ('mbuf_avail_for_read', 'mbuf_avail_for_write', 'mbuf_rewind_reader', 'mbuf_rewind_writer'):
+        m.fn(f, S)
+    for f in ('mbuf_get_byte', 'mbuf_get_char', 'mbuf_get_uint16be', 'mbuf_get_uint32be', 'mbuf_get_uint64be'):
+        m.fn(f, {'buf': 'struct', 'dst_p': 'outval'})
+    for f in ('mbuf_get_bytes', 'mbuf_get_chars'):
+        m.fn(f, {'buf': 'struct', 'len': 'val', 'dst_p': 'outval'})
+    m.fn('mbuf_write_byte', {'buf': 'struct', 'val': 'val'})
+    m.fn('mbuf_write', {'buf': 'struct', 'ptr': 'src', 'len': 'val'})
+    m.fn('mbuf_fill', {'buf': 'struct', 'byte': 'val', 'len': 'val'})
+    m.fn('mbuf_cut', {'buf': 'struct', 'ofs': 'val', 'len': 'val'})
+    m.fn('mbuf_make_room', {'buf': 'struct', 'len': 'val'}, stop_at=('realloc',), keep=('new_alloc',),
+         lean_name='mbuf_make_room_pre')
+    return m.text('Usual.Gen.C12T', GEN_NOTE % ('usual/mbuf.h, usual/mbuf.c', 'C12'))
+
+
+SAFE_MUL = ('safe_mul_uint', 'safe_mul_ulong', 'safe_mul_uint8', 'safe_mul_uint32', 'safe_mul_uint64',
+            'safe_mul_size')
+
+
+def c09t_module(repo=None, workdir='/tmp'):
+    """usual/bits.h: the instantiations of _USUAL_MUL_SAFE_.  safe_mul_uint16 is not in the list:
+    its `a * b` is computed in `int` after promotion and excluding signed overflow on the
+    `max / a >= b` path needs relational reasoning the translator does not do (it refuses)."""
+    repo = repo or _default_repo()
+    stub = _stub(workdir, 'c09t_stub.c', '#include <usual/bits.h>\n')
+    m = Module(stub, repo, flt='safe_mul_')
+    for f in SAFE_MUL:
+        m.fn(f, {'res_p': 'outval', 'a': 'val', 'b': 'val'})
+    return m.text('Usual.Gen.C09T', GEN_NOTE % ('usual/bits.h', 'C09'))
+
+
+def c06t_module(repo=None, workdir='/tmp'):
+    """usual/cbtree.c: get_bit, find_crit_bit (two loops over two byte strings) and the fls() of
+    usual/bits.h they use (the __builtin_clz variant that the #if selects for gcc / clang)"""
+    repo = repo or _default_repo()
+    stub = _stub(workdir, 'c06t_stub.c', '#include "usual/cbtree.c"\n')
+    m = Module(stub, repo)
+    m.fn('usual_fls', {'x': 'val'})
+    m.fn('get_bit', {'bitpos': 'val', 'key': ('ptr', 'rk'), 'klen': 'val'})
+    m.fn('find_crit_bit', {'a': ('ptr', 'ra'), 'alen': 'val', 'b': ('ptr', 'rb'), 'blen': 'val'})
+    return m.text('Usual.Gen.C06T', GEN_NOTE % ('usual/cbtree.c, usual/bits.h', 'C06'))
+
+
+TTIE = {
+    'C12': (c12t_module, 'usual/mbuf.h + usual/mbuf.c'),
+    'C09': (c09t_module, 'usual/bits.h safe_mul_*'),
+    'C06': (c06t_module, 'usual/cbtree.c get_bit/find_crit_bit + usual/bits.h fls'),
+}
+
+
+def ttie(ck, vf, pid):
+    """T-tie step of checks/<pid>.py: regenerate lean/Usual/Gen/<pid>T.lean from vf.REPO and
+    return the bridge modules to be added to the proof obligations.  Refusal of the translator or
+    a generated file that Lean rejects = tie broken (ck.broken, ck.proof_ok = False); the
+    committed Gen file is put back so that everything still builds and the check goes on
+    searching.  Runs against a scratch copy restore the file when the process ends."""
+    import atexit
+    import subprocess as sp
+    fn, what = TTIE[pid]
+    rel = 'lean/Usual/Gen/%sT.lean' % pid
+    path = os.path.join(vf.VERIF, rel)
+    before = open(path, encoding='utf-8').read() if os.path.exists(path) else None
+    pinned = vf.git_committed(rel)
+    if pinned is None:
+        pinned = before
+    bridge = ['UsualProofs.Bridge.%sT' % pid]
+    if os.path.realpath(vf.REPO) != '/repo' and before is not None:
+        atexit.register(lambda: vf.write_if_changed(path, before))
+
+    def broken(msg):
+        ck.broken.append(msg)
+        ck.proof_ok = False
+        ck.cov['t_tie_' + pid + 'T'] = 'BROKEN: ' + msg[:200]
+        if pinned is not None:
+            vf.write_if_changed(path, pinned)
+            ck.cov['gen_restored_' + pid + 'T'] = 'pinned version, so that the tree still builds'
+        # lemmas about a stale Gen file say nothing about the current source: not obligations of this run
+        return []
+    try:
+        txt = fn(vf.REPO, ck.bdir)
+    except Refused as e:
+        return broken('T-tie: extract/c2lean.py refuses %s (left the C subset): %s' % (what, e))
+    vf.write_if_changed(path, txt)
+    p = sp.run(['lake', 'env', 'lean', path], cwd=vf.LEAN, stdout=sp.PIPE, stderr=sp.STDOUT, text=True)
+    if p.returncode != 0:
+        return broken('T-tie: the Lean file generated from %s does not compile: %s'
+                      % (what, ' | '.join(l for l in p.stdout.split('\n') if 'error' in l)[:300]))
+    ck.cov['t_tie_' + pid + 'T'] = 'regenerated from %s%s' % (
+        what, '' if pinned is None or pinned == txt else ' (differs from the pinned Gen file)')
+    return bridge
 
 
 if __name__ == '__main__':
